@@ -134,6 +134,13 @@ def read_text(path):
         return f.read()
 
 
+def read_output(path, what):
+    """The output file of a command that reported success: its absence is a violation, not a harness problem."""
+    if not os.path.exists(path):
+        raise Violation("%s reported success but did not write %s" % (what, os.path.basename(path)))
+    return read_text(path)
+
+
 def call(fn, *a, **kw):
     """Run a gaftools entry point in-process.
     Returns ("ok", value) | ("exit", code) | ("cle", message) | ("exc", "Type: msg")."""
